@@ -1,6 +1,6 @@
 ENTRY = {
     "level": "proof",
-    "families": [fam("C06", 2500, 60000)],
+    "families": [fam("C06", 1500, 60000)],
     "gen_items": ["Cmp", "Cmp::apply", "CHUNK", "MAX_REGS"],
     "rule": "each case = one predicate x one batch of N rows repeating a pattern of 1/3/7/13 random rows (period coprime to the 8-bit packing and the "
             "1024-row chunk); N mostly 1..40, 10% from {0,1,1023,1024,1025,2048,2049,3000}, 10% around byte boundaries (7..65); column domains: two Float64 "
